@@ -280,5 +280,9 @@ def run(db, chk):
     check_versions_mutators(db, chk)
     check_order(db, chk)
     check_version_origin(db, chk)
-    chk.info("latest-version discovery ignoring staging/temporary names is decided under C33; handler atomicity under C02/C10")
+    # "manifest publication is the single commit point" needs each handler's create to be exclusive: the per-handler protocol
+    # rules are C02's (conditional put / staging + rename / lock < head < write) and are part of this property too
+    from . import C02
+    C02.run(db, chk)
+    chk.info("latest-version discovery ignoring staging/temporary names is decided under C33; the external-store handler under C10")
     chk.assume("auto_cleanup_hook only removes files no retained version references (C08)")
